@@ -68,10 +68,9 @@ for _pid, _title, _what in [
   ("C02", "invalid samples rejected", "every sample labelled invalid is rejected by the validator"),
   ("C12", "constraints fenced on both sides", "every single-constraint relaxation (type, declared required property, numeric bound) changes the verdict of some sample"),
   ("C06", "normalisation preserves acceptance", "extended validator (NOT_enum / NOT_multipleOf) agrees on the schema and on normalize(schema) over an instance grid (equality for full merge, implication for reduced merge)"),
-  ("C16", "normal form and termination", "independent normal-form walker, upstream check_normalized, 10 s alarm / RecursionError on guarded recursion"),
   ("C07", "XML documents validate / do not validate", "xmlschema validates every document labelled valid and rejects every document labelled invalid (schemas without emptiable choice branches), numeric draws forced to both ends of their range; the Coq model of xml_schema/parse.py is not written yet, so this check is currently oracle-only"),
   ("C10", "OpenAPI request labels", "every request of generate_all is taken apart (applied parameter / body leaves), each carried raw value judged by jsonschema against its parameter / body schema, required parts checked, method and placeholder-free path checked, and compared with the label; the request graph is an instance of the C03 theorem (its well-formedness is checked by the model's wfb on the dumped node table)"),
-  ("C13", "history independence", "random histories of parse / normalize / generate_paths / execute calls followed by a probe, compared with the probe run first in a fresh interpreter (same hash seed and random seed); inputs deep-compared before / after; repeated execute compared"),
+  ("C13", "history independence", "random histories of parse / normalize / generate_paths / execute calls followed by a probe, compared with the probe run first in a fresh interpreter (same hash seed and random seed); inputs deep-compared before / after; repeated execute compared; Coq (core): C13_history_free -- generate_paths yields the same entries, labels and outcome whatever distance annotations earlier calls left on the graph (agree-on-table congruence through all five traversals), C13_refuted_pinned keeps the defect of the pinned code"),
   ("C17", "own exception for unsupported constructs", "supported inputs with one legal out-of-dialect construct planted (45 JSON constructs, 43 regex patterns, 23 XSD insertions, 15 grammar dictionaries, 17 OpenAPI variants); the outcome must be a graph or an exception derived from FencesException; Coq: error-class lemmas of the models"),
   ("C08", "grammar samples derivable", "chart-based derivability of every sample, occurrence-wise use of every terminal and range end"),
 ]:
@@ -91,6 +90,16 @@ CLAIMED["C11"] = dict(cat="proof", tech="Coq termination proof of generate_paths
         "implementation's, and divergence is observed (RecursionError / alarm). Termination of normalize() itself is observed under C16.",
    note=TB + "Modelled: coq/Graph.v (core/node.py). Not modelled: CPython's stack limit (fuel = recursion depth; the budget of the two walks is shown to exist, not bounded by a formula), "
         "wall-clock time; front-end graph construction is tied by certificates and observation only.", ref="5/C11")
+
+CLAIMED["C16"] = dict(cat="proof", tech="Coq proof that normalize() returns a nested normal form (invariants of _inline_refs, _to_dnf, _merge and the definitions table) + model-implementation correspondence of normal forms",
+   text="C16_normal_form: for every input schema, both merge options, duplicate detection on or off and any recursion budget, whenever the model of normalize() returns, "
+        "the result is {anyOf: [...], $defs: {...}} in which every alternative is a lone reference into the result's own $defs or a keyword set without anyOf / allOf / "
+        "oneOf / not / if / then / else / const / $ref whose sub-schemas (additionalProperties, items, additionalItems, contains, every property, every prefix item) are "
+        "again of that form to any depth, and every entry of $defs is of that form; C16_inline_refs, C16_to_dnf are the two main lemmas. The termination half (finite time on "
+        "guarded recursion) is partial: no theorem, it is observed on the implementation (RecursionError / alarm, 22 s budget per schema) over random recursive documents "
+        "including recursion through then / else / not and references next to sibling keywords; the two families of non-termination found this way were repaired (e322fa7, 3e0af93).",
+   note=TB + "Modelled: coq/Normalize.v (hand-written model of normalize.py + json_pointer.py); sha1 names modelled as table positions; sets insertion-ordered in the correspondence run.",
+   ref="5/C16")
 
 NOT_YET = {}
 
